@@ -1,4 +1,4 @@
 From Coq Require Import Extraction ExtrOcamlBasic.
 From PV Require Import Lib.ExtBase C41.Model.
 Extraction "model.ml" ext_base_z ext_base_n ext_base_nat ext_base_res ext_base_list
-  k_stream k_sink exit_status k_multi k_seldec.
+  k_stream k_sink exit_status k_multi k_seldec k_stdincopy.
